@@ -688,6 +688,22 @@ func checkDialHistory(fail func(string, string, ...any), stats map[string]int, m
 				return
 			}
 		}
+		if mode == "dns+connect-to" {
+			// the mapping picks one replacement (a name and a port) per dial and the DNS layer resolves the name: all
+			// attempts of the dial carry that replacement's port, and the replacements, told apart by their ports, take
+			// turns as they do without the DNS layer
+			port := ""
+			for _, a := range d.attempts {
+				_, p, _ := net.SplitHostPort(a)
+				if port != "" && p != port {
+					fail("C18.mixed-ports", "dial #%d to %s attempted %v: the attempts of one dial go to the port of one replacement", i+1, d.target, d.attempts)
+					return
+				}
+				port = p
+			}
+			nMapped++
+			replUse[port]++
+		}
 		if mode == "connect-to" {
 			nMapped++
 			replUse[d.attempts[0]]++
@@ -711,6 +727,23 @@ func checkDialHistory(fail func(string, string, ...any), stats map[string]int, m
 				}
 			}
 			stats["probe.rotation-checked"]++
+		}
+	}
+	if mode == "dns+connect-to" && nMapped > 0 {
+		k := len(repl)
+		ports := map[string]bool{}
+		for _, r := range repl {
+			_, p, _ := net.SplitHostPort(r)
+			ports[p] = true
+		}
+		if len(ports) == k {
+			for p := range ports {
+				if c := replUse[p]; c != nMapped/k && c != (nMapped+k-1)/k {
+					fail("C18.rotation", "after %d dials to the mapped address its %d replacements %v were used, by port, %v times (want %d or %d each)", nMapped, k, repl, replUse, nMapped/k, (nMapped+k-1)/k)
+					return
+				}
+			}
+			stats["probe.rotation-checked-below-dns"]++
 		}
 	}
 	for src, use := range extraUse {
